@@ -139,7 +139,8 @@ def check_ctor_folds(ctx):
     fi = ci.methods.get('__init__')
     ctx.unit('functions')
     d = param_default(fi, 'default')
-    stored = any(isinstance(n, ast.Assign) and canon(n.targets[0]) == 'self.default' and canon(n.value) == 'default' for n in ast.walk(fi.node))
+    from ..model import ctor_stores
+    stored = ctor_stores(repo, ci).get('default') == {'default'}
     if isinstance(d, ast.Constant) and d.value is None and stored:
         ctx.holds(rule, fi, 'Optional(default omitted) -> None', 'optional fields default to None unless given', fi.node.lineno, clause='a')
     else:
